@@ -22,10 +22,18 @@ EXPLANATION = (
     "segment with the tail codec, trimming only for the tail segment, and block addresses agree between "
     "put_block and _satisfy_data_block; (7) the AES-CTR counter is positioned with one constant equal to the "
     "cipher block size and the residue is consumed before any write; the encryptor starts at counter 0 and is "
-    "created once.  Undecided: the arithmetic identities themselves (sum of block sizes == share size), zfec, "
-    "AES, hash trees, server response orders.")
+    "created once; (8) response order 'DYHB answer vs UEB': once have_UEB is set every CommonShare is marked "
+    "authoritative - the UEB event marks all registered ones in the same turn (after num_segments is stored), and a "
+    "CommonShare created later is registered and marked at creation unless the count is still a guess; the marker "
+    "always sets the flag and leaves a tree with the authoritative number of leaves; (9) response order of read "
+    "answers: in every _satisfy_* stage the edge on which a fetched span is absent reaches no consumer of that data "
+    "and returns a false value, and no consumer sits inside the fetch loop (a partial hash chain is never submitted).  "
+    "Undecided: the arithmetic identities themselves (sum of block sizes == share size), zfec, AES, hash trees, and "
+    "all other effects of server response orders (scheduling of Share/SegmentFetcher/ShareFinder loops, overdue "
+    "handling, DataSpans semantics).")
 TECHNIQUE = ("static analysis: symbolic normal forms of size formulas compared under a symbol map, struct-format "
-             "folding of the share header, CFG gate rules for pad/trim")
+             "folding of the share header, CFG gate rules for pad/trim, typestate exploration of CommonShare creation "
+             "and of absent-data edges in the downloader")
 
 ENC = "immutable.encode:Encoder"
 NODE = "immutable.downloader.node:DownloadNode"
@@ -1762,7 +1770,7 @@ def run_complete_before_submit(ctx, r):
                 # a consumer inside the fetch loop is fed one piece at a time
                 for q in cons:
                     vis, _p = explore(cfg, 0, lambda a_, l_, nx, st_: None if l_ == "exc" else 0, start=q)
-                    if any(i == fnode.id for (i, _s) in vis if (i, _s) != (q.id, 0)) :
+                    if any(i == fnode.id for (i, _s) in vis):
                         r.violation(m, m.loc(consumes(q)), "%s is called inside the loop that fetches %s: pieces are submitted "
                                     "before the rest of the request is known to have arrived" % (src(m, consumes(q)), X))
 
@@ -1802,3 +1810,14 @@ def run(ctx: Context):
                   "counter 0, is created once and advances for every chunk", expected=5) as r:
         run_ctr(ctx, r)
         run_encryptor(ctx, r)
+
+    with ctx.rule("C01.8", "R1/R4", "response order DYHB answer vs UEB: once have_UEB is set every CommonShare is marked "
+                  "authoritative - update_num_segments marks all registered ones in the turn the UEB is validated, and a "
+                  "CommonShare created later is registered and marked at creation unless the count is still a guess",
+                  expected=4) as r:
+        run_authoritative(ctx, r)
+
+    with ctx.rule("C01.9", "R1", "response order of read answers: in every _satisfy_* stage of Share._get_satisfaction the "
+                  "edge on which a fetched span is absent reaches no consumer of that data and returns a false value; "
+                  "no consumer sits inside the fetch loop", expected=8) as r:
+        run_complete_before_submit(ctx, r)
